@@ -63,6 +63,29 @@ static std::string with_kind(const std::string& kind, const std::vector<ll>& v, 
     }
     return "unsupported";
 }
+// 32-bit unsigned elements: extents / strides fit, products may not (compute_offset must widen BEFORE multiplying)
+template <typename F>
+static std::string with_kind_u32(const std::string& kind, const std::vector<ll>& v, F&& f) {
+    using T = unsigned int;
+    size_t n = v.size();
+    for (auto x : v) if (x < 0 || x > 4294967295LL) return "unsupported";
+    if (kind == "vecu") return f(mk_vec<T>(v));
+    if (kind == "tupu") {
+        switch (n) {
+            case 1: return f(mk_tup<T,1>(v)); case 2: return f(mk_tup<T,2>(v)); case 3: return f(mk_tup<T,3>(v));
+            case 4: return f(mk_tup<T,4>(v)); case 5: return f(mk_tup<T,5>(v)); case 6: return f(mk_tup<T,6>(v));
+            default: return "unsupported";
+        }
+    }
+    if (kind == "arru") {
+        switch (n) {
+            case 1: return f(mk_arr<T,1>(v)); case 2: return f(mk_arr<T,2>(v)); case 3: return f(mk_arr<T,3>(v));
+            case 4: return f(mk_arr<T,4>(v)); case 5: return f(mk_arr<T,5>(v)); case 6: return f(mk_arr<T,6>(v));
+            default: return "unsupported";
+        }
+    }
+    return "unsupported";
+}
 // same with int elements (the index type the views use)
 template <typename F>
 static std::string with_kind_int(const std::string& kind, const std::vector<ll>& v, F&& f) {
@@ -139,8 +162,9 @@ static std::string handle(const Case& c) {
     }
     std::string kind = c.args[0].raw.substr(2);
     bool is_int = (kind == "veci" || kind == "arri");
+    bool is_u32 = (kind == "vecu" || kind == "arru" || kind == "tupu");
     auto dispatch = [&](const std::vector<ll>& v, auto&& f) -> std::string {
-        return is_int ? with_kind_int(kind, v, f) : with_kind(kind, v, f);
+        return is_int ? with_kind_int(kind, v, f) : is_u32 ? with_kind_u32(kind, v, f) : with_kind(kind, v, f);
     };
     if (op == "strides") {
         return dispatch(c.args[1].list, [&](const auto& shape){ return "ok " + show_idx(ix::compute_strides(shape)); });
